@@ -337,6 +337,80 @@ theorem returned_patch_fidelity_of_contract {Op : Type} (applyOps : J → List O
     ∃ r, appliedObject applyOps b resp = some r ∧ LeafEq r m :=
   returned_patch_fidelity applyOps fromDiff nil hs c act b m hb p fns resp (fun _ _ => contract _ _) hserve hm
 
+/-! ## changes between Python-equal values of different JSON type (`1` → `true`, `false` → `0`) -/
+
+/-- The diff is ALWAYS consulted: whenever something was requested (a non-empty patch or a queued
+    function) and the mutation succeeds, the operations of the review are exactly what `from_diff` says
+    about (reviewed body, mutated body) — no comparison of the two bodies decides beforehand that
+    "nothing changed". -/
+theorem diff_always_consulted {Op : Type} (fromDiff : J → J → List Op) (b toBe : J) (p : List (String × J))
+    (fns : List Fn) (hreq : (p.isEmpty && fns.isEmpty) = false) (hmu : mutated b p fns = .ok toBe) :
+    asJsonPatch fromDiff b p fns = .ok (fromDiff b toBe) := by
+  simp [asJsonPatch, hreq, hmu]
+
+/-- "the returned JSON patch, applied to the reviewed object, yields the object with the requested field
+    changes": at EVERY path the patched object holds the very JSON value the requested result holds —
+    in particular a value requested in place of a Python-equal one of another JSON type (`true` over `1`,
+    `0` over `false`) is there, and differs from what the reviewed object had. Same hypotheses as
+    `returned_patch_fidelity` (the diff library by its pointwise contract). -/
+theorem type_change_reflected {Op : Type} (applyOps : J → List Op → Option J)
+    (fromDiff : J → J → List Op)
+    (nil : ∀ a, applyOps a [] = some a)
+    (hs : List (Handler × Bool)) (c : Cause) (act : Handler → Act)
+    (b m : J) (hb : b.isObj = true) (p : List (String × J)) (fns : List Fn) (resp : Response Op)
+    (contract : ∀ toBe, mutated b p fns = .ok toBe → applyOps b (fromDiff b toBe) = some toBe)
+    (hserve : serve fromDiff hs c act b p fns = .ok resp)
+    (hm : applyFns (mergePatch b (.obj p)) fns = .ok m)
+    (q : List String) (v : J) (hv : leafAt m q = some v) :
+    ∃ r, appliedObject applyOps b resp = some r ∧ leafAt r q = some v ∧
+      (leafAt b q ≠ some v → leafAt r q ≠ leafAt b q) := by
+  obtain ⟨r, h1, h2⟩ := returned_patch_fidelity applyOps fromDiff nil hs c act b m hb p fns resp contract hserve hm
+  have hq : leafAt r q = some v := (h2 q).trans hv
+  exact ⟨r, h1, hq, fun hne heq => hne (heq ▸ hq)⟩
+
+-- non-vacuity: `spec.enabled: 1` overwritten with `true` through the merge content, `spec.ratio: 0`
+-- with `false` through a user's function, next to a no-op write; the patched object has the booleans
+example : ∃ r, appliedObject (fun a ops => some (ops.getLastD a))
+      (.obj [("spec", .obj [("enabled", .num 1), ("ratio", .num 0), ("n", .str "x")])])
+      (buildResponse (Op := J) [] []
+        [J.obj [("spec", .obj [("enabled", .bool true), ("ratio", .bool false), ("n", .str "x")])]])
+      = some r ∧ leafAt r ["spec", "enabled"] = some (.bool true) ∧
+      (leafAt (.obj [("spec", .obj [("enabled", .num 1), ("ratio", .num 0), ("n", .str "x")])]) ["spec", "enabled"]
+          ≠ some (.bool true) → leafAt r ["spec", "enabled"] ≠
+        leafAt (.obj [("spec", .obj [("enabled", .num 1), ("ratio", .num 0), ("n", .str "x")])]) ["spec", "enabled"]) :=
+  type_change_reflected (Op := J) (fun a ops => some (ops.getLastD a)) (fun _ b => [b])
+    (fun _ => rfl) [] ⟨none, none, some "CREATE", none⟩ (fun _ => ⟨[], none⟩)
+    _ _ rfl [("spec", .obj [("enabled", .bool true), ("n", .str "x")])]
+    [.mergeWith [("spec", .obj [("ratio", .bool false)])]] _ (fun _ _ => rfl) rfl rfl
+    ["spec", "enabled"] (.bool true) rfl
+
+/-- The rejected variant (`if body_to_be == body_as_is: return []` with Python's `==`) FAILS the clause:
+    with a diff library that honours its contract on every pair, the review that overwrites
+    `spec.enabled: 1` with `true` (next to a no-op write) gets no operations at all, so the patched
+    object still has `1` where `true` was requested — while `asJsonPatch` (the code) returns the diff. -/
+theorem eq_shortcut_witness :
+    ∃ (b toBe : J) (p : List (String × J)),
+      mutated b p [] = .ok toBe ∧
+      (∀ a t : J, (fun (a : J) (ops : List J) => some (ops.getLastD a)) a ((fun _ t => [t]) a t) = some t) ∧
+      asJsonPatchEqShortcut (Op := J) (fun _ t => [t]) b p [] = .ok [] ∧
+      asJsonPatch (Op := J) (fun _ t => [t]) b p [] = .ok [toBe] ∧
+      leafAt toBe ["spec", "enabled"] = some (.bool true) ∧
+      leafAt b ["spec", "enabled"] = some (.num 1) ∧
+      ¬ LeafEq b toBe :=
+  ⟨.obj [("spec", .obj [("enabled", .num 1), ("n", .str "x")])],
+   .obj [("spec", .obj [("enabled", .bool true), ("n", .str "x")])],
+   [("spec", .obj [("enabled", .bool true), ("n", .str "x")])],
+   rfl, fun _ _ => rfl, rfl, rfl, rfl, rfl,
+   fun h => by have := h ["spec", "enabled"]; simp [leafAt, lookup] at this⟩
+
+/-- …and through a user's transformation function alone (an empty merge content) -/
+theorem eq_shortcut_fn_witness :
+    asJsonPatchEqShortcut (Op := J) (fun _ t => [t])
+      (.obj [("spec", .obj [("debug", .bool false)])]) [] [.mergeWith [("spec", .obj [("debug", .num 0)])]] = .ok [] ∧
+    asJsonPatch (Op := J) (fun _ t => [t])
+      (.obj [("spec", .obj [("debug", .bool false)])]) [] [.mergeWith [("spec", .obj [("debug", .num 0)])]]
+      = .ok [.obj [("spec", .obj [("debug", .num 0)])]] := ⟨rfl, rfl⟩
+
 /-- Which object is "the reviewed object": whenever the review carries an `object` (CREATE, UPDATE,
     CONNECT) the whole review — handlers' body, filters, patch reference — is about THAT object,
     whatever `oldObject` holds (on UPDATE: the stored state, in general different). -/
